@@ -165,7 +165,11 @@ func TestStoreStatus(t *testing.T) {
 	// etcd: real time, VERIF_PAR sequences at a time
 	sem := make(chan struct{}, vt.EnvInt("VERIF_PAR", 64))
 	var wg sync.WaitGroup
-	for _, j := range jobs {
+	etcdEvery := vt.EnvInt("VERIF_ETCD_EVERY", 1) // real time is expensive: every n-th sequence on etcd
+	for i, j := range jobs {
+		if (i+int(vt.Seed()))%etcdEvery != 0 {
+			continue
+		}
 		wg.Add(1)
 		sem <- struct{}{}
 		go func(j job) {
